@@ -18,7 +18,7 @@ thread_local! {
     static GUARD_DEPTH: Cell<u32> = const { Cell::new(0) };
     pub static FUEL: Cell<u64> = const { Cell::new(u64::MAX) };
     pub static FUEL_ON: Cell<bool> = const { Cell::new(false) };
-    pub static SITE_COUNTS: RefCell<[u64; 16]> = const { RefCell::new([0; 16]) };
+    pub static SITE_COUNTS: RefCell<[u64; 32]> = const { RefCell::new([0; 32]) };
 }
 
 #[derive(Clone, Debug)]
@@ -31,7 +31,8 @@ pub struct PanicNote {
 impl PanicNote {
     /// Site class: file + message with digits stripped (line numbers move under unrelated edits).
     pub fn class(&self) -> String {
-        let m: String = self.msg.chars().filter(|c| !c.is_ascii_digit()).collect();
+        // digits stripped (indices move), cut at a quoted excerpt of the input, ASCII only
+        let m: String = self.msg.split('`').next().unwrap_or("").chars().filter(|c| !c.is_ascii_digit() && (c.is_ascii_graphic() || *c == ' ')).collect();
         let m = if m.len() > 100 { m[..100].to_string() } else { m };
         // machine-independent path: strip the cargo registry / rustc prefixes
         let mut f = self.file.as_str();
@@ -83,7 +84,7 @@ pub fn guarded<T>(f: impl FnOnce() -> T) -> Result<T, PanicNote> {
 /// The hook installed into jbonsai's yield points for single-threaded (L1) simulation:
 /// counts sites and burns deterministic fuel.
 pub fn l1_hook(site: u32) {
-    SITE_COUNTS.with(|c| c.borrow_mut()[(site as usize) & 15] += 1);
+    SITE_COUNTS.with(|c| c.borrow_mut()[(site as usize) & 31] += 1);
     if FUEL_ON.with(|f| f.get()) {
         let left = FUEL.with(|f| f.get());
         if left == 0 {
